@@ -144,10 +144,52 @@ def exponent (s : List Char) : Int × List Char :=
     else (0, s)
   | [] => (0, s)
 
-/-- `traits::scale` refuses decimal exponents above `max_exponent10 = 308` and below
-`2 · min_exponent10 = -614`; `real_impl::parse` then fails -/
+/-! #### IEEE arithmetic on `Val` (round to nearest even), as far as spirit's `traits::scale` needs it -/
+
+/-- a finite value as `(numerator, denominator)` of its absolute value -/
+def Val.ratOf : Val → Nat × Nat
+  | .fin _ m e => if e ≥ 0 then (m * 2 ^ e.toNat, 1) else (m, 2 ^ (-e).toNat)
+  | _ => (0, 1)
+
+def Val.isFin : Val → Bool
+  | .fin _ _ _ => true
+  | _ => false
+
+/-- `a * b` in binary64 for non-negative finite operands, result sign `neg` -/
+def Val.mulD (neg : Bool) (a b : Val) : Val :=
+  if a.isFin && b.isFin then Val.roundBin 53 (-1074) 1024 neg (a.ratOf.1 * b.ratOf.1) (a.ratOf.2 * b.ratOf.2)
+  else .inf neg
+
+/-- `a / b` in binary64 for non-negative finite operands, `b ≠ 0` -/
+def Val.divD (neg : Bool) (a b : Val) : Val :=
+  if a.isFin && b.isFin then Val.roundBin 53 (-1074) 1024 neg (a.ratOf.1 * b.ratOf.2) (a.ratOf.2 * b.ratOf.1)
+  else if a.isFin then .fin neg 0 0 else .inf neg
+
+/-- `a + b` in binary64 for non-negative finite operands -/
+def Val.addD (neg : Bool) (a b : Val) : Val :=
+  Val.roundBin 53 (-1074) 1024 neg (a.ratOf.1 * b.ratOf.2 + b.ratOf.1 * a.ratOf.2) (a.ratOf.2 * b.ratOf.2)
+
+/-- `static_cast<double>(acc)` of the `uint64` accumulator -/
+def Val.ofNatD (neg : Bool) (n : Nat) : Val := Val.roundBin 53 (-1074) 1024 neg n 1
+
+/-- spirit's `pow10<double>(k)`: the literal `1e<k>`, i.e. the double nearest to `10^k` -/
+def pow10D (k : Nat) : Val := Val.ofDecimal false 1 k
+
+/-- `traits::scale(exp - frac, n, acc_n)` of boost 1.83 (`real_impl.hpp`), value and failure:
+* `k ≥ 0`: fails above `max_exponent10 = 308`, else `double(acc) * 1e<k>` (two roundings when
+  `acc ≥ 2^53` or `k > 22`, all of them modelled);
+* `-307 ≤ k < 0`: `double(acc) / 1e<-k>`;
+* `k < -307`: `compensate_roundoff` (`double((acc/10)*10) + double(acc%10)`), `/ 1e307`, then
+  fails below `-614`, else `/ 1e<-k-307>`.
+The sign is applied afterwards (`copysign`); rounding to nearest is symmetric, so it is passed down. -/
 def scaled (neg : Bool) (digits : Nat) (k : Int) (rest : List Char) : Option (Val × List Char) :=
-  if k > 308 ∨ k < -614 then none else some (Val.ofDecimal neg digits k, rest)
+  if k > 308 ∨ k < -614 then none
+  else if k ≥ 0 then some (Val.mulD neg (Val.ofNatD false digits) (pow10D k.toNat), rest)
+  else if k ≥ -307 then some (Val.divD neg (Val.ofNatD false digits) (pow10D (-k).toNat), rest)
+  else
+    let n0 := Val.addD false (Val.ofNatD false (digits / 10 * 10)) (Val.ofNatD false (digits % 10))
+    let n1 := Val.divD false n0 (pow10D 307)
+    some (Val.divD neg n1 (pow10D (-k - 307).toNat), rest)
 
 /-- `double_` (`real_policies<double>`: sign, leading / trailing dot allowed,
 `nan`, `nan(...)`, `inf`, `infinity`) -/
